@@ -194,6 +194,8 @@ static std::string jescape(const char *s)
       o += (char)c;
     } else if (c == '\n')
       o += "\\n";
+    else if (c == '\t')
+      o += "\\t";
     else if (c < 0x20)
       o += ' ';
     else
@@ -860,6 +862,7 @@ static int cmd_worker(int argc, char **argv)
   int tier = 0, worker = 0, batch = 500;
   unsigned per_run_alarm = 60;
   int pin = -1;
+  const char *dump_path = nullptr;
   for (int i = 2; i < argc; i++) {
     std::string a = argv[i];
     auto val = [&]() { return argv[++i]; };
@@ -887,7 +890,10 @@ static int cmd_worker(int argc, char **argv)
       per_run_alarm = (unsigned)atoi(val());
     else if (a == "--pin")
       pin = atoi(val());
+    else if (a == "--dump")
+      dump_path = val();
   }
+  FILE *dump = dump_path ? fopen(dump_path, "w") : nullptr;
   const SimScenario *sc = scen_name ? find_scenario(scen_name) : nullptr;
   if (!sc) {
     fprintf(stderr, "unknown scenario\n");
@@ -928,6 +934,9 @@ static int cmd_worker(int argc, char **argv)
     for (auto &m : cr.runs) {
       ws.runs++;
       done_runs++;
+      if (dump)
+        fprintf(dump, "%lu %d %016lx %016lx %lu %lu\n", (unsigned long)m.index, m.result, (unsigned long)m.ev_hash,
+                (unsigned long)m.ilv_hash, (unsigned long)m.steps, (unsigned long)m.switches);
       switch (m.result) {
       case RES_OK: ws.ok++; break;
       case RES_VIOLATION: ws.viol++; break;
@@ -998,6 +1007,8 @@ static int cmd_worker(int argc, char **argv)
       break;
   }
   double wall_used = now_s() - t0;
+  if (dump)
+    fclose(dump);
   // summary json
   std::string j = "{";
   char b[512];
